@@ -42,7 +42,7 @@ def handle : Handler := fun j => do
   let cfg ← parseCfg (← j.getObjVal? "cfg")
   let r := parseReq (← j.getObjVal? "req")
   match (← getStr j "op") with
-  | "respond" => pure (respJson (respond cfg r (← getBool j "approve")))
+  | "respond" => pure (respJson (respondIss cfg (getStrOpt j "issuer") r (← getBool j "approve")))
   | "consent" => pure (respJson (consent cfg r (getBoolD j "user" true)))
   | op => throw s!"op {op}"
 
